@@ -94,7 +94,8 @@ class Recorder:
         self.callinfo[k] = {"op": op, "c": c, "i": i}
         self.open_calls.add(k)
         self.emit({"e": "begin", "k": k, "op": op, "c": c, "i": i,
-                   "m": m or {"q": 0, "topic": 0, "prio": 0, "due": 0, "exp": 0, "dl": 0, "ver": 0}})
+                   "m": m or {"q": 0, "topic": 0, "prio": 0, "due": 0, "exp": 0, "dl": 0, "ver": 0, "tried": 0,
+                              "forced": 0, "bo": 0, "oldexp": 0, "nowP": 0, "schedP": 0, "ts": 0}})
         return k
 
     def cons_extra(self) -> dict:
